@@ -35,6 +35,7 @@ type SpecEnv struct {
 	// cellVars: captured variables (closure free variables): name -> cell address and value type.
 	cellVars map[string]sval
 	qdepth   int // nesting depth of quantifiers being evaluated
+	inTrig   bool // evaluating an instantiation pattern
 }
 
 func (f *Frame) specEnv(st, old *State, pkg *ssa.Package) *SpecEnv {
@@ -286,12 +287,23 @@ func (env *SpecEnv) eval(e Expr) (sval, error) {
 		body, err := env.evalBool(x.Body)
 		env.qdepth--
 		if err == nil && x.Trig != nil {
+			env.inTrig = true
 			tv, terr := env.eval(x.Trig)
 			if terr != nil {
 				err = terr
 			} else {
-				body = fmt.Sprintf("(! %s :pattern (%s))", body, tv.t)
+				pats := tv.t
+				for _, t2 := range x.Trigs {
+					tv2, terr := env.eval(t2)
+					if terr != nil {
+						err = terr
+						break
+					}
+					pats += " " + tv2.t
+				}
+				body = fmt.Sprintf("(! %s :pattern (%s))", body, pats)
 			}
+			env.inTrig = false
 		}
 		for _, qv := range x.Vars {
 			delete(env.vars, qv.Name)
@@ -715,6 +727,10 @@ func (env *SpecEnv) evalIndex(x *EIndex) (sval, error) {
 	case *types.Map:
 		_, vn := mapHeaps(f.ctx, u)
 		d, _ := mapHeaps(f.ctx, u)
+		if env.inTrig {
+			// inside an instantiation pattern: the bare value-heap read (patterns admit no connectives)
+			return env.sv(fmt.Sprintf("(select (select %s %s) %s)", f.heap(env.state(), vn), v.t, i.t), u.Elem()), nil
+		}
 		in := fmt.Sprintf("(and (not (= %s nil)) (select (select %s %s) %s))", v.t, f.heap(env.state(), d), v.t, i.t)
 		return env.sv(fmt.Sprintf("(ite %s (select (select %s %s) %s) %s)", in, f.heap(env.state(), vn), v.t, i.t, f.ctx.zero(u.Elem())), u.Elem()), nil
 	case *types.Pointer:
@@ -819,6 +835,20 @@ func (env *SpecEnv) evalCall(x *ECall) (sval, error) {
 				return sval{}, fmt.Errorf("deref of non-pointer %s", v.typ)
 			}
 			return env.sv(f.load(env.state(), v.t, pt.Elem()), pt.Elem()), nil
+		case "sliceobj":
+			// sliceobj(s): identity of the backing array of slice s (two slices with different
+			// sliceobj never share elements)
+			if len(x.Args) != 1 {
+				return sval{}, fmt.Errorf("sliceobj takes one argument")
+			}
+			v, err := env.eval(x.Args[0])
+			if err != nil {
+				return sval{}, err
+			}
+			if v.sort != "Slice" {
+				return sval{}, fmt.Errorf("sliceobj of non-slice")
+			}
+			return sval{t: fmt.Sprintf("(pobj (sbase %s))", v.t), sort: "Int"}, nil
 		case "structobj":
 			// structobj(p): p points into an ordinary object (struct, array, variable), not a
 			// map or channel runtime object — needed to frame it against writes to maps
@@ -878,6 +908,21 @@ func (env *SpecEnv) evalCall(x *ECall) (sval, error) {
 				v.t = Ite(lr, v.t, cur.t)
 			}
 			return v, nil
+		case "atcall":
+			// atcall(anchor, e): e evaluated in the state just before the (dominating) call site
+			// that an `assert at call anchor` clause of this contract is attached to.
+			if len(x.Args) != 2 {
+				return sval{}, fmt.Errorf("atcall takes (anchor, expr)")
+			}
+			snap := f.top.callSnaps[x.Args[0].exprString()]
+			if snap == nil {
+				return sval{}, fmt.Errorf("atcall: no call site %q with an assert seen before this point", x.Args[0].exprString())
+			}
+			saved, savedOld := env.st, env.inOld
+			env.st, env.inOld = snap, false
+			v, err := env.eval(x.Args[1])
+			env.st, env.inOld = saved, savedOld
+			return v, err
 		case "held":
 			// held(x.mu): the current goroutine holds mutex field mu of object x
 			if len(x.Args) != 1 {
@@ -1241,7 +1286,7 @@ func (env *SpecEnv) applySpecFun(sf *SpecFun, argExprs []Expr) (sval, error) {
 	}
 	if sf.Body != nil {
 		// defined: expand in an environment with only the parameters
-		sub := &SpecEnv{f: f, vars: map[string]sval{}, st: env.st, old: env.old, pkg: env.pkg, inOld: env.inOld, reach: env.reach, pol: env.pol}
+		sub := &SpecEnv{f: f, vars: map[string]sval{}, st: env.st, old: env.old, pkg: env.pkg, inOld: env.inOld, reach: env.reach, pol: env.pol, qdepth: env.qdepth}
 		if sf.Pkg != "" {
 			// names in the body resolve in the declaring package
 			for _, p := range f.eng.Prog.SSA.AllPackages() {
